@@ -378,6 +378,7 @@ theorem throwAt_inv (base full : List PK) (s : S) (e : Exc)
       exact throwHandler_inv base full s1 e (by rw [hl1]; exact hl) x (by rw [hs1]; exact hw) ⟨emits rest, hx⟩
     | cmdArm => exact Or.inl (throwStart_terminating _ _)
     | connPhase => exact absurd hm (by simp)
+    | initing => exact absurd hm (by simp)
     | connArm => exact absurd hm (by simp)
     | startArm => exact absurd hm (by simp)
     | closing => exact absurd hm (by simp)
@@ -399,6 +400,7 @@ theorem resumeAt_inv (base full : List PK) (s : S) (h : CmdInv base full s) (lvl
       obtain ⟨hlc, x, pre, c, hw, hp, hx⟩ := hm
       exact runCmdArm_inv base full rest s1 (by rw [hl1]; exact hl) hlc x pre c (by rw [hs1]; exact hw) hp hx
     | connPhase => exact absurd hm (by simp)
+    | initing => exact absurd hm (by simp)
     | connArm => exact absurd hm (by simp)
     | startArm => exact absurd hm (by simp)
     | closing => exact absurd hm (by simp)
@@ -416,7 +418,7 @@ theorem CmdInv_congr (base full : List PK) (s s' : S) (hp : s'.phase = s.phase) 
 theorem step_inv (base full : List PK) (s : S) (ev : Ev) (hev : ev.internal = true) (h : CmdInv base full s) :
     CmdInv base full (step s ev) := by
   cases ev with
-  | handshake _ => simp [Ev.internal] at hev
+  | handshake _ _ _ => simp [Ev.internal] at hev
   | cmd _ => simp [Ev.internal] at hev
   | lose => simp [Ev.internal] at hev
   | resume =>
